@@ -39,12 +39,21 @@ fn tree_features(m: &[(String, Meta)]) -> (bool, bool, bool, usize) {
 }
 
 fn check(ctx: &Ctx, meta: &Option<Vec<(String, Meta)>>, comp: Comp, label: &str, counting: bool) -> Result<(), Fail> {
-	let mut m = simple_model((3, 9, 0), &[(0, false), (1, false)], 1, 1, Pattern::Zero, 1, false);
+	// the replay around the metadata varies too (version regime, Game End single / absent / doubled, frames or none):
+	// where the metadata element starts depends on how the raw element ends
+	let variant = meta.as_ref().map_or(0, |t| t.len() + t.first().map_or(0, |(k, _)| k.len())) + comp as usize;
+	let ver = [(3, 9, 0), (0, 1, 0), (2, 2, 0), (3, 16, 0)][variant % 4];
+	let mut m = simple_model(ver, &[(0, false), (1, false)], (variant / 4) % 2, 1, Pattern::Zero, ((variant / 8) % 3) as u8, false);
 	m.metadata = meta.clone();
 	let bytes = m.encode();
 	if counting {
 		ctx.eval();
 		ctx.class(label);
+		ctx.class(match m.end {
+			crate::model::EndSpec::None => "replay_without_game_end",
+			crate::model::EndSpec::One(_) => "replay_with_single_end",
+			crate::model::EndSpec::Two(_) => "replay_with_doubled_end",
+		});
 		match meta {
 			None => ctx.class("no_metadata"),
 			Some(t) => {
